@@ -236,6 +236,16 @@ func bfgs(f_ Objective, f ObjectiveInSitu, x0 Vector, H0 Matrix, epsilon Epsilon
     return x1, nil
   }
 
+  // constraints function for the line search algorithm
+  var constraints_line func(alpha ConstScalar) bool
+
+  if constraints.Value != nil {
+    constraints_line = func(alpha ConstScalar) bool {
+      p2.VmulS(p1, alpha)
+      x2.VaddV(x1, p2)
+      return constraints.Value(x2)
+    }
+  }
   // keep track of whether H has been updated before
   first_update := true
   for i := 0; i < maxIterations.Value; i++ {
@@ -247,7 +257,7 @@ func bfgs(f_ Objective, f ObjectiveInSitu, x0 Vector, H0 Matrix, epsilon Epsilon
       return f_(X2)
     }
     // perform line search to find a new point x2
-    alpha, err := lineSearch.Run(phi, Float64Type, lineSearch.Parameters{1, 100})
+    alpha, err := lineSearch.Run(phi, Float64Type, lineSearch.Parameters{1, 100}, lineSearch.Constraints{constraints_line})
     // compute new position
     p2.VmulS(p1, alpha)
     x2.VaddV(x1, p2)
